@@ -26,6 +26,7 @@ import (
 	"go/ast"
 	"go/token"
 	"path/filepath"
+	"sort"
 	"strings"
 )
 
@@ -329,6 +330,66 @@ func genC19() {
 				}
 			}
 			emit("onceChecksPutErr", "syncer/output.go sendFuncOnce: the error of a refused Put is remembered and the empty-batcher shortcut `if batcher.Len() == 0` returns it (non-nil) before it can return nil", chk)
+		}
+		// dimension audit: PROCESS-GLOBAL / CLIENT-GLOBAL mutable state the cluster batchers reach: package-level variables of the
+		// cluster client (name, and whether any function assigns it after init) and the fields of *Cluster that Put writes
+		{
+			var vars []string
+			for _, fn := range []string{"batch.go", "batch_pipe.go", "cluster.go", "conn.go", "multi.go", "node.go", "node_pipeline.go", "txn_batcher.go"} {
+				fs, ff := parseFile("pkg/redis/client/cluster/" + fn)
+				_ = fs
+				names := map[string]bool{}
+				for _, d := range ff.Decls {
+					if gd, ok := d.(*ast.GenDecl); ok && gd.Tok == token.VAR {
+						for _, sp := range gd.Specs {
+							for _, n := range sp.(*ast.ValueSpec).Names {
+								names[n.Name] = true
+							}
+						}
+					}
+				}
+				written := map[string]bool{}
+				ast.Inspect(ff, func(n ast.Node) bool {
+					if as, ok := n.(*ast.AssignStmt); ok {
+						for _, l := range as.Lhs {
+							if id, ok := l.(*ast.Ident); ok && names[id.Name] && id.Obj != nil && id.Obj.Kind == ast.Var {
+								if _, top := id.Obj.Decl.(*ast.ValueSpec); top {
+									written[id.Name] = true
+								}
+							}
+						}
+					}
+					return true
+				})
+				for n := range names {
+					w := "read-only"
+					if written[n] {
+						w = "WRITTEN"
+					}
+					vars = append(vars, fn+":"+n+":"+w)
+				}
+			}
+			sort.Strings(vars)
+			facts["c19_packageVars"] = strings.Join(vars, " ")
+			// fields of *Cluster assigned inside chooseNodeWithCmdAndKeys (called by every Put of every batcher of the client)
+			fs, ff := parseFile("pkg/redis/client/cluster/cluster.go")
+			var fields []string
+			if fn := c19Method(ff, "Cluster", "chooseNodeWithCmdAndKeys"); fn != nil {
+				seen := map[string]bool{}
+				ast.Inspect(fn, func(n ast.Node) bool {
+					if as, ok := n.(*ast.AssignStmt); ok {
+						for _, l := range as.Lhs {
+							if t := c19Cond(fs, l); strings.HasPrefix(t, "cluster.") && !seen[t] {
+								seen[t] = true
+								fields = append(fields, t)
+							}
+						}
+					}
+					return true
+				})
+			}
+			sort.Strings(fields)
+			facts["c19_putWritesClientState"] = strings.Join(fields, " ")
 		}
 		sb.WriteString("end GunYu.Gen.C19Guards\n")
 		writeIfChanged(filepath.Join(*out, "C19Guards.lean"), sb.String())
